@@ -58,6 +58,10 @@ func c05Check(r *Run, sig string, data []byte, complete bool, lastSeq map[int]in
 
 func runC05(r *Run) {
 	t := r.Tape
+	if t.Pct(10) {
+		c05ConcurrentCloseRead(r)
+		return
+	}
 	pair := t.Pct(60)
 	nW := 2 + t.Draw(4)
 	nP := t.Draw(3)
@@ -152,6 +156,9 @@ func runC05(r *Run) {
 		if stall {
 			pingCtx[i] = []time.Duration{time.Second, 2 * time.Second, 20 * time.Second}[t.Draw(3)]
 		}
+		// (no two deadlines of a run fall on the same instant: what happens when two
+		// timers are due together is decided by the Go runtime, not by the seed)
+		pingCtx[i] += time.Duration(i+1) * 211 * time.Microsecond
 	}
 	// with a stall some writers have their own short context: a Write/Close that gives
 	// up while it waits for a lock fails without closing the connection, and the
@@ -159,12 +166,32 @@ func runC05(r *Run) {
 	writerCtx := make([]time.Duration, nW)
 	for i := range writerCtx {
 		if stall && t.Pct(50) {
-			writerCtx[i] = []time.Duration{1500 * time.Millisecond, 3 * time.Second}[t.Draw(2)]
+			writerCtx[i] = []time.Duration{1500 * time.Millisecond, 3 * time.Second}[t.Draw(2)] + time.Duration(i+1)*137*time.Microsecond
 		}
 	}
+	smallPipe := false
 	peerPings := 0
 	if stall && !pair {
 		peerPings = t.Draw(4)
+	}
+	// small-frames plan (a third of the stall runs): every message fits into the
+	// write buffer and goes through a streaming Writer, the pipe is tiny, at least
+	// one pinger with a long context is around. Then it is control frames, not data
+	// frames, that get stuck in the transport holding the frame lock, and the
+	// writers' calls (Writer, Write, Close) give up one by one while queued behind them.
+	if stall && t.Pct(33) {
+		for i := range writers {
+			for j := range writers[i].sizes {
+				writers[i].sizes[j] = 16 + t.Draw(100)
+				writers[i].api[j] = 1
+			}
+		}
+		if nP == 0 {
+			nP = 1
+			pingCtx = append(pingCtx, 20*time.Second)
+		}
+		smallPipe = true
+		r.S.Count("probe.small-frames-stall-plan")
 	}
 	holding := false
 	if stall {
@@ -180,6 +207,9 @@ func runC05(r *Run) {
 		}
 		if libOut.Cap > 4096 {
 			libOut.Cap = 4096
+		}
+		if smallPipe {
+			libOut.Cap = 16
 		}
 		libOut.HardCap = true
 		peerEnd.RGate = func() bool { return !holding }
@@ -198,6 +228,15 @@ func runC05(r *Run) {
 	r.D("fire_after", fireAfter)
 	r.Nontrivial = true
 
+	aClosed := func() bool {
+		if !pair {
+			return rc.Lib.Closed()
+		}
+		if libIsClient {
+			return pce.Closed()
+		}
+		return pse.Closed()
+	}
 	var live, failed atomic.Int32
 	var readerDone atomic.Bool // a's reader returned: the application's cue to close
 	var closing atomic.Bool
@@ -229,6 +268,9 @@ func runC05(r *Run) {
 							_, err = w.Write(data[h:])
 						}
 						if err == nil {
+							// (a control frame of another goroutine may take the frame lock
+							// between the last chunk and the final frame)
+							r.S.Park("a." + name + ".preclose")
 							err = w.Close()
 						}
 					}
@@ -254,7 +296,10 @@ func runC05(r *Run) {
 				ctx, cancel := context.WithTimeout(bg, pingCtx[i])
 				err := a.Ping(ctx)
 				cancel()
-				if err != nil && !(stall && errors.Is(err, context.DeadlineExceeded)) {
+				// (once the transport is closed the error class of a ping that gives up at
+				// the same instant is the runtime's choice among ready select cases: the
+				// pinger's next step must not depend on it)
+				if err != nil && (aClosed() || !(stall && errors.Is(err, context.DeadlineExceeded))) {
 					return
 				}
 			}
